@@ -45,7 +45,14 @@ fn engines_for(property: &str) -> Vec<(Box<dyn Engine>, u64, u64)> {
             (Box::new(FileE2e), 30_000, 1_000_000),
             (Box::new(OtlpSim { focus: "C12" }), 15_000, 500_000),
         ],
-        "C07" | "C09" => vec![
+        "C09" => vec![
+            (Box::new(ChanInline), 1_000_000, 20_000_000),
+            (Box::new(ChanThreads), 100_000, 3_000_000),
+            (Box::new(CallingContexts), 1200, 6000),
+            (Box::new(FileE2e), 30_000, 1_000_000),
+            (Box::new(OtlpSim { focus: "C12" }), 15_000, 500_000),
+        ],
+        "C07" => vec![
             (Box::new(ChanInline), 1_000_000, 20_000_000),
             (Box::new(ChanThreads), 100_000, 3_000_000),
             (Box::new(FileE2e), 30_000, 1_000_000),
@@ -70,6 +77,7 @@ fn engines_for(property: &str) -> Vec<(Box<dyn Engine>, u64, u64)> {
         "C11" => vec![
             (Box::new(Fsim { mode: "C11" }), 1_000_000, 30_000_000),
             (Box::new(FsDiff), 4_000, 150_000),
+            (Box::new(FileE2e), 20_000, 600_000),
         ],
         _ => vec![],
     }
